@@ -15,10 +15,13 @@ RULE = ("Metamorphic. A target source (generated scalar-core program with struct
         "compiled (1) alone in a fork of a process that has never compiled anything (reference), (2) in the worker "
         "process after a generated history of 1-6 other compilations - accepted and rejected ones (syntax errors, type "
         "errors, misplaced break, redeclarations), including programs that reuse the target's identifiers in other "
-        "roles (a global named like the target's parameter/local, a struct of the same name with other fields) - and "
+        "roles (a global named like the target's parameter/local, a struct of the same name with other fields; parameters "
+        "without a name) - and "
         "(3) twice more with fresh Compiler objects; IR listing, global/function tables and wasm bytes (or the refusal "
         "class) must be identical. (4) batches of sources are compiled in child processes started with PYTHONHASHSEED in "
-        "{0, 1, 4242, random} and compared; thorough adds a scratch copy of the package without cached parser tables. "
+        "{0, 1, 4242, random} and compared; (5) an importer is compiled after 1-3 earlier versions of the imported file "
+        "(other signatures, overloads, structs) were stored at the same path and loaded by earlier compilations, and "
+        "compared with a never-compiled process reading the current file; thorough adds a scratch copy of the package without cached parser tables. "
         "Non-trivial = history of >= 2 compilations of which >= 1 was rejected and a target with >= 2 functions or >= 3 "
         "basic blocks (history part) / source compiled under >= 2 different hash seeds (seed part); distinct by "
         "(target, options, history).")
@@ -41,6 +44,9 @@ POOL = [
     "{ float r = 0.0 ; int k = 3 ; do { k -- ; r = r + h ( k , q ) ; } while ( k > 0 ) return r ; }\n",
     "export function f ( float a , int b ) -> float { float x = a * b + 2 ; int y = b / 2 ; return x - y ; }\n",
     "export function f ( int2 a , int2 b ) -> int2 { return a + b ; }\nexport function g ( float2 a ) -> float { return a . x ; }\n",
+    # parameters without a name
+    "function h ( float v , int ) -> float { return v ; }\nexport function f ( float a , int ) -> float { return h ( a , 2 ) ; }\n",
+    "export function f ( int , float , int c ) -> int { return c + 1 ; }\nfunction g ( float2 ) -> int { return 3 ; }\n",
 ]
 BAD = [
     "export function f ( int a ) -> int { return a + ; }\n",
@@ -163,6 +169,63 @@ def history_check(ctx, case):
         if got2 != ref:
             ctx.fail("repeat|" + _which(ref, got2), "two fresh Compiler objects disagree: %s\n%s" % (_diff(ref, got2), target), case)
             return
+
+
+# -- histories that involve imported modules: the file an import names is rewritten between compilations --------
+
+@st.composite
+def import_history(draw):
+    def lib():
+        t, r = draw(st.sampled_from(["int", "float"])), draw(st.sampled_from(["int", "float", "float"]))
+        k = draw(st.integers(1, 9))
+        s = "function weight ( %s k ) -> %s { return k * %d ; }\n" % (t, r, k)
+        if draw(st.booleans()):
+            s += "function weight ( %s k , int j ) -> float { return k + j ; }\n" % t
+        if draw(st.booleans()):
+            s = "struct P { %s u ; float w ; }\n" % t + s
+        return s
+    libs = tuple(lib() for _ in range(draw(st.integers(2, 4))))
+    importer = ('import "lib" ;\nexport function main ( int a , float b ) -> float { float r = weight ( a ) + b ; '
+                'return r + weight ( %s ) ; }\n' % draw(st.sampled_from(["a", "b", "2", "a , 3"])))
+    return (libs, importer, draw(st.booleans()))
+
+
+def import_history_check(ctx, case):
+    import pickle
+    import shutil
+    import tempfile
+    libs, importer, opt = case
+    ctx.count()
+    work = tempfile.mkdtemp(prefix="c18i_")
+    old = os.getcwd()
+    os.chdir(work)
+    try:
+        stored = 0
+        got = None
+        for lib in libs:
+            c = adapter.compile_src(lib)
+            if not c.ok:
+                ctx.discard("library-variant-not-accepted")
+                continue
+            with open("lib.nslir", "wb") as fh:
+                pickle.dump(c.ir, fh)
+            stored += 1
+            got = pristine.describe_compiled(adapter.compile_src(importer, optimize=opt), False)
+        if stored < 2:
+            ctx.discard("fewer-than-two-library-versions")
+            return
+        ref = server().compile_many([(importer, opt, False, work)])[0]
+        ctx.label("import-history-compared")
+        ctx.label("importer-accepted" if ref.get("ok") else "importer-rejected")
+        ctx.nontrivial((libs, importer, opt))
+        if got != ref:
+            ctx.fail("import-history|" + _which(ref, got),
+                     "an importer compiled after %d earlier versions of lib.nslir were loaded in this process differs from a fresh "
+                     "process reading the current file: %s\n%s\n--- versions of lib, oldest first ---\n%s" % (
+                         stored - 1, _diff(ref, got), importer, "\n---\n".join(libs)), case)
+    finally:
+        os.chdir(old)
+        shutil.rmtree(work, ignore_errors=True)
 
 
 def _which(a, b):
@@ -299,6 +362,8 @@ def batch_worker_factory(R, n_cases):
 
 def run(R):
     R.hyp("history", history_case(), history_check, examples=R.pick(20, 300))
+    R.hyp("import-history", import_history(), import_history_check, examples=R.pick(12, 200))
+    R.require("import-history-compared")
     R.custom("history-batch", batch_worker_factory(R, R.pick(80, 1500)), nworkers=16)
     R.custom("hash-seeds", seeds_worker_factory(R, R.pick(60, 400)), nworkers=R.pick(4, 16))
     R.require("batch-compared")
